@@ -92,6 +92,26 @@ static void run_wt(uint64_t i) {
 }
 static void desc_wt(uint64_t i, FILE *o) { int mi = i % 2; i /= 2; int fi = i % 7; i /= 7; int ni = i % 6; int kind = (int)(i / 6); fprintf(o, "\"construct\":\"%s\",\"count\":%d,\"format\":\"%s\",\"mode\":\"%s\"", kind == 0 ? "table-columns" : kind == 1 ? "list-items" : "footnotes", WT_N[ni], FORMAT_NAMES[TEXT_FORMATS[fi]], mi ? "compat" : "mmd"); }
 #define NSP 8
+
+/* the last line has no line ending and is 1-3 plain bytes: it must reach the output (the rendering has more occurrences of it than the rendering of the document without that line) */
+static const char *LL_PRE[8] = { "", "foo\n", "Total:\n\n", "# H\n\n", "* a\n\n", "```\nc\n```\n", "    code\n\n", "| a |\n|---|\n| b |\n\n" };
+static const char *LL_LAST[7] = { "Q", "7", "Zq", "\xc3\xa9", "Qz9", "x", "Q " };
+static size_t ll_count(const char *h, const char *n) { size_t c = 0, l = strlen(n); while (l && n[l - 1] == ' ') l--; for (const char *p = h; *p; p++) if (!strncmp(p, n, l)) c++; return c; }
+static void run_ll(uint64_t i) {
+	int mi = i % 2; i /= 2; int fi = i % 7; i /= 7; int li = i % 7; int pi = (int)(i / 7);
+	char doc[128]; snprintf(doc, sizeof doc, "%s%s", LL_PRE[pi], LL_LAST[li]);
+	POOL_INIT(); char *out = NULL, *base = NULL; srand(1);
+	K_TRY(out = mmd_string_convert(doc, MODES[mi], TEXT_FORMATS[fi], 0));
+	if (k_exited) { k_violation("exit-called:last-line", "conversion called exit(%d)", (int)k_exit_status); POOL_DRAIN(); return; }
+	srand(1); K_TRY(base = mmd_string_convert(LL_PRE[pi], MODES[mi], TEXT_FORMATS[fi], 0));
+	if (out && base) {
+		if (ll_count(out, LL_LAST[li]) <= ll_count(base, LL_LAST[li])) k_violation("text-lost:last-line-without-newline", "the last line %s (no line ending) is missing from the %s output", LL_LAST[li], FORMAT_NAMES[TEXT_FORMATS[fi]]);
+		k_outcome(k_fnv(out, strlen(out), K_FNV0 + fi));
+	} else if (!out) k_violation("null-result", "mmd_string_convert returned NULL [%s]", FORMAT_NAMES[TEXT_FORMATS[fi]]);
+	free(out); free(base); POOL_DRAIN();
+}
+static void desc_ll(uint64_t i, FILE *o) { int mi = i % 2; i /= 2; int fi = i % 7; i /= 7; int li = i % 7; int pi = (int)(i / 7); char doc[128]; snprintf(doc, sizeof doc, "%s%s", LL_PRE[pi], LL_LAST[li]); k_json_bytes(o, "src", doc, strlen(doc)); fprintf(o, ",\"format\":\"%s\",\"mode\":\"%s\"", FORMAT_NAMES[TEXT_FORMATS[fi]], mi ? "compat" : "mmd"); }
+
 static space SP[NSP];
 static void sp_run(int k, uint64_t idx) { space_pt p = space_decode(&SP[k], idx); size_t n = space_doc(&SP[k], &p, docbuf, sizeof docbuf); conv_case(docbuf, n, p.fmt, p.ext); }
 #define SPFN(k) static void run##k(uint64_t i) { sp_run(k, i); } static void desc##k(uint64_t i, FILE *o) { space_desc(&SP[k], i, o); }
@@ -119,6 +139,7 @@ int main(int argc, char **argv) {
 		{ "q_macro2", space_count(&SP[2]), run2, desc2, "qt", "macro fragments alone and in ordered pairs x 7 writers x 8 extension sets" },
 		{ "q_inline3core", space_count(&SP[7]), run7, desc7, "qt", "inline core (60 fragments) len 3 in {list item, footnote, definition} x 7 writers, MMD" },
 		{ "q_deep_nesting", 5 * 5 * 7 * 2, run_dn, desc_dn, "qt", "5 nesting constructs (list/quote staircases, list inside a footnote) x depth {20,60,150,300,400} (below the built-in limits) x 7 writers x {MMD,compat}: innermost text rendered, nothing on stderr" },
+		{ "q_last_line", 8 * 7 * 7 * 2, run_ll, desc_ll, "qt", "8 prefixes x 7 last lines of 1-3 plain bytes without a line ending x 7 writers x {MMD,compat}: the last line reaches the output" },
 		{ "q_wide", 3 * 6 * 7 * 2, run_wt, desc_wt, "qt", "tables of 10..130 columns, lists of 10..130 items, 10..130 footnotes x 7 writers x {MMD,compat}: every cell/item/note word rendered, nothing on stderr" },
 		{ "t_lines4core", space_count(&SP[3]), run3, desc3, "t", "one-per-kind lines len 4 x 7 writers x {MMD,compat}" },
 		{ "t_inline3", space_count(&SP[6]), run6, desc6, "t", "inline sequences len 3 x 4 contexts x 7 writers x {MMD,compat}" },
